@@ -364,9 +364,14 @@ def loader_clause(model, rep, funcs):
     # pairing: same loop index for position, rotator; one task per iteration
     loops = [n for n in walk_no_nested(f.node) if isinstance(n, ast.For)]
     found = False
+    MO0_ = Matcher(f)
     for lp in loops:
         prep = [c for c in ast.walk(lp) if isinstance(c, ast.Call) and kwarg(c, "rot") is not None and kwarg(c, "center") is not None]
         adds = [c for c in ast.walk(lp) if isinstance(c, ast.Call) and isinstance(c.func, ast.Attribute) and c.func.attr == "add_task"]
+        if not adds:
+            # the pool spelled out: `task = delayed(f)(...)` ... `tasks.append(da.from_delayed(task, ...))` - the append is the "add one task" step
+            adds = [c for c in ast.walk(lp) if isinstance(c, ast.Call) and isinstance(c.func, ast.Attribute) and c.func.attr == "append" and c.args and
+                    any(isinstance(x, ast.Call) and (dotted(x.func) or "").rsplit(".", 1)[-1] in ("from_delayed", "delayed") for x in ast.walk(MO0_.expr(c.args[0])))]
         if not prep:
             continue
         found = True
@@ -396,9 +401,12 @@ def loader_clause(model, rep, funcs):
         ok = len(adds) == 1 and not nested_bad
         rep.ob("O", f.anchor, "exactly one task is added per molecule, unconditionally", ok, f"{len(adds)} add_task call(s) in the loop",
                node=lp, fn=f, clause="4 pairing", stmt="for-loop add_task count")
-        # order / shape agreement between prep and crop
+        # order / shape agreement between prep and crop (the crop call is the add_task call, or - with the pool spelled out - the delayed call that carries
+        # `order=` and `shape=`)
+        crops = adds if all(kwarg(a, "order") is not None or kwarg(a, "shape") is not None for a in adds) else \
+            [c for c in ast.walk(lp) if isinstance(c, ast.Call) and c not in prep and kwarg(c, "order") is not None and kwarg(c, "shape") is not None]
         for c in prep:
-            for a in adds:
+            for a in crops:
                 o1, o2 = kwarg(c, "order"), kwarg(a, "order")
                 ok = o1 is not None and o2 is not None and norm_src(o1) == norm_src(o2)
                 rep.ob("SLOT", f.anchor, "window margin and interpolation use the same spline order", ok,
